@@ -31,12 +31,23 @@ Definition is_panic {A} (r : res A) : bool := match r with Panic => true | _ => 
 Definition is_ok {A} (r : res A) : bool := match r with Ok _ => true | _ => false end.
 
 (** [be n v]: the [n] low-order bytes of [v], most significant first
-    (binary.BigEndian.AppendUintNN after the Go conversion to an unsigned type). *)
-Fixpoint be (n : nat) (v : Z) : list Z :=
+    (binary.BigEndian.AppendUintNN after the Go conversion to an unsigned type).
+    [be_spec] is the defining equation; [be] computes the same list from the least
+    significant end (linear in the size of [v] per byte, so that 2048-bit numbers are cheap
+    under vm_compute); BaseProofs.be_eq proves them equal. *)
+Fixpoint be_spec (n : nat) (v : Z) : list Z :=
   match n with
   | O => []
-  | S k => (v / 256 ^ Z.of_nat k) mod 256 :: be k v
+  | S k => (v / 256 ^ Z.of_nat k) mod 256 :: be_spec k v
   end.
+
+Fixpoint be_go (n : nat) (v : Z) (acc : list Z) : list Z :=
+  match n with
+  | O => acc
+  | S k => be_go k (v / 256) (v mod 256 :: acc)
+  end.
+
+Definition be (n : nat) (v : Z) : list Z := be_go n v [].
 
 (** binary.BigEndian.UintNN *)
 Definition unbe (l : list Z) : Z := fold_left (fun acc b => acc * 256 + b) l 0.
